@@ -702,6 +702,8 @@ def do_freeze(model, x, state, quantize, labels):
   except Exception as e:  # pylint: disable=broad-except
     sig = core.exc_signature(e)
     sig["step"] = "freeze"
+    sig["masked_conv"] = any(getattr(l, "_mask", None) is not None
+                             for l in model.layers)
     return [("freeze_raises", sig, repr(e)[:500])], model
   labels.add("freeze")
   # the source model is not modified
